@@ -1389,37 +1389,31 @@ fn rotated_imports(p: &Program) -> Option<Program> {
     if any { Some(q) } else { None }
 }
 
-/// does some scope import a path whose first segment is the alias (last
-/// segment) of a sibling import of the same scope?
-fn sibling_alias_prefix(p: &Program) -> bool {
-    fn paths_hit(ps: &[Path]) -> bool {
-        for (i, a) in ps.iter().enumerate() {
-            for (j, b) in ps.iter().enumerate() {
-                if i != j && !a.is_empty() && !b.is_empty() {
-                    let first = b.iter().find(|&&x| x != SUPER);
-                    if first == a.last() && b.len() > 1 {
-                        return true;
-                    }
-                }
+/// does this import list contain a path whose first segment (looked up through
+/// the enclosing scopes, i.e. not after `super`) is the alias (last segment) of
+/// another path of the list?
+fn alias_prefix_pair(p: &Program, mi: usize, ps: &[Path]) -> bool {
+    // the alias an import introduces: its last segment, or — for `super…super` —
+    // the name of the module it denotes
+    let alias = |a: &Path| -> Option<usize> {
+        if !a.is_empty() && a.iter().all(|x| *x == SUPER) {
+            let mut m = mi;
+            for _ in 0..a.len() {
+                m = p.mods[m].parent?;
+            }
+            Some(p.mods[m].ident)
+        } else {
+            a.last().copied()
+        }
+    };
+    for (i, a) in ps.iter().enumerate() {
+        for (j, b) in ps.iter().enumerate() {
+            if i != j && b.len() > 1 && b[0] != SUPER && alias(a) == Some(b[0]) {
+                return true;
             }
         }
-        false
     }
-    fn block_hit(b: &Block) -> bool {
-        if paths_hit(&flatten_all(&b.imports)) {
-            return true;
-        }
-        b.stmts.iter().any(|s| matches!(s, Stmt::Block(_, inner) if block_hit(inner)))
-    }
-    p.mods.iter().any(|m| {
-        let mut ps = vec![];
-        for it in &m.items {
-            if let ItemD::Imports(t) = it {
-                ps.extend(flatten_all(t));
-            }
-        }
-        paths_hit(&ps) || m.items.iter().any(|it| matches!(it, ItemD::Fn { body: Some(b), .. } if block_hit(b)))
-    })
+    false
 }
 
 struct ProbeInfo {
@@ -1456,15 +1450,21 @@ struct Sites {
     decls: BTreeMap<(String, String), i64>,
     /// (canonical scope, identifier) of a local → its position in program order
     let_seq: BTreeMap<(String, String), usize>,
+    /// canonical names of the scopes whose import list has an alias-prefix pair
+    pair_scopes: Vec<String>,
 }
 
 fn probe_infos(p: &Program) -> Sites {
     let mut out = BTreeMap::new();
     let mut decls: BTreeMap<(String, String), i64> = BTreeMap::new();
     let mut let_seq: BTreeMap<(String, String), usize> = BTreeMap::new();
+    let mut pair_scopes: Vec<String> = vec![];
     let mut seq = 0usize;
     #[allow(clippy::too_many_arguments)]
-    fn walk(p: &Program, b: &Block, ctx: &str, scope: &str, depth: usize, next_block: &mut usize, seq: &mut usize, out: &mut BTreeMap<usize, ProbeInfo>, decls: &mut BTreeMap<(String, String), i64>, let_seq: &mut BTreeMap<(String, String), usize>) {
+    fn walk(p: &Program, mi: usize, b: &Block, ctx: &str, scope: &str, depth: usize, next_block: &mut usize, seq: &mut usize, out: &mut BTreeMap<usize, ProbeInfo>, decls: &mut BTreeMap<(String, String), i64>, let_seq: &mut BTreeMap<(String, String), usize>, pair_scopes: &mut Vec<String>) {
+        if alias_prefix_pair(p, mi, &flatten_all(&b.imports)) {
+            pair_scopes.push(scope.to_string());
+        }
         for s in &b.stmts {
             *seq += 1;
             match s {
@@ -1474,7 +1474,7 @@ fn probe_infos(p: &Program) -> Sites {
                 Stmt::Block(_, inner) => {
                     let id = *next_block;
                     *next_block += 1;
-                    walk(p, inner, ctx, &format!("{scope}.$b{id}"), depth + 1, next_block, seq, out, decls, let_seq);
+                    walk(p, mi, inner, ctx, &format!("{scope}.$b{id}"), depth + 1, next_block, seq, out, decls, let_seq, pair_scopes);
                 }
                 Stmt::Let(x, t) => {
                     decls.entry((scope.to_string(), p.names[*x].clone())).or_insert(*t);
@@ -1486,6 +1486,15 @@ fn probe_infos(p: &Program) -> Sites {
     let mn = module_names(p);
     for (mi, m) in p.mods.iter().enumerate() {
         let mut next_block = block_base(p, mi);
+        let mut module_imports = vec![];
+        for it in &m.items {
+            if let ItemD::Imports(t) = it {
+                module_imports.extend(flatten_all(t));
+            }
+        }
+        if alias_prefix_pair(p, mi, &module_imports) {
+            pair_scopes.push(mn[mi].clone());
+        }
         for it in &m.items {
             match it {
                 ItemD::Fn { name, tag, body } => {
@@ -1493,7 +1502,7 @@ fn probe_infos(p: &Program) -> Sites {
                     if let Some(b) = body {
                         let fscope = format!("{}.{}", mn[mi], p.names[*name]);
                         let below = fscope.strip_prefix("pkg.").unwrap_or(&fscope).to_string();
-                        walk(p, b, &below, &fscope, 0, &mut next_block, &mut seq, &mut out, &mut decls, &mut let_seq);
+                        walk(p, mi, b, &below, &fscope, 0, &mut next_block, &mut seq, &mut out, &mut decls, &mut let_seq, &mut pair_scopes);
                     }
                 }
                 ItemD::Const { name, tag } | ItemD::Ty { name, tag } => {
@@ -1514,7 +1523,7 @@ fn probe_infos(p: &Program) -> Sites {
             decls.entry((p.names[r.name].clone(), p.names[*n].clone())).or_insert(*t);
         }
     }
-    Sites { probes: out, decls, let_seq }
+    Sites { probes: out, decls, let_seq, pair_scopes }
 }
 
 // ------------------------------------------------------------------ the compiler's own scope graph
@@ -2161,6 +2170,9 @@ fn check_case(rep: &mut Report, drv: &mut Driver, p: &Program, ident: J, tier: &
     let q = reversed_imports(p);
     let second = check_variant(rep, drv, &q, "imports-reversed", &ident, max_err, None);
     let mut differs = vec![];
+    let sites = probe_infos(p);
+    // is every difference below a scope whose import list has an alias-prefix pair?
+    let mut explained = !sites.pair_scopes.is_empty();
     let mut others = vec![second];
     if let Some(r) = rotated_imports(p) {
         others.push(check_variant(rep, drv, &r, "imports-rotated", &ident, max_err, None));
@@ -2176,12 +2188,16 @@ fn check_case(rep: &mut Report, drv: &mut Driver, p: &Program, ident: J, tier: &
             if let Some(b) = other.seen.get(id) {
                 if a != b {
                     differs.push(format!("reference {id}: {} vs {}", a.show(), b.show()));
+                    let at = &sites.probes[id].scope;
+                    if !sites.pair_scopes.iter().any(|ps| at == ps || at.starts_with(&format!("{ps}."))) {
+                        explained = false;
+                    }
                 }
             }
         }
     }
     if !differs.is_empty() {
-        let shape = if sibling_alias_prefix(p) { "sibling-alias-prefix" } else { "other" };
+        let shape = if explained { "sibling-alias-prefix" } else { "other" };
         let all = |_: usize| true;
         let empty = BTreeMap::new();
         rep.violation(
